@@ -50,6 +50,9 @@ pub enum GenerateError {
     /// Intrinsic can not be used in the current shader stage
     InvalidPipelineForMeshIntrinsic,
 
+    /// Floating point %= where the assigned expression can not be evaluated twice
+    ComplexFloatRemainderAssignment,
+
     /// Failed to build mesh struct from mesh shader entry point function
     InvalidMeshOutputs,
 
@@ -4177,7 +4180,30 @@ fn generate_intrinsic_op(
         DifferenceAssignment => Form::Binary(ast::BinOp::DifferenceAssignment),
         ProductAssignment => Form::Binary(ast::BinOp::ProductAssignment),
         QuotientAssignment => Form::Binary(ast::BinOp::QuotientAssignment),
-        RemainderAssignment => Form::Binary(ast::BinOp::RemainderAssignment),
+        RemainderAssignment => {
+            let lhs_ety = exprs[0].get_type(context.module).unwrap();
+            let lhs_ty = context.module.type_registry.remove_modifier(lhs_ety.0);
+            match context.module.type_registry.extract_scalar(lhs_ty) {
+                Some(ir::ScalarType::Float16)
+                | Some(ir::ScalarType::Float32)
+                | Some(ir::ScalarType::Float64)
+                | Some(ir::ScalarType::FloatLiteral) => {
+                    // There is no % for floating point types so a %= b turns into a = fmod(a, b)
+                    // This evaluates the left side twice
+                    if !can_evaluate_twice(&exprs[0]) {
+                        return Err(GenerateError::ComplexFloatRemainderAssignment);
+                    }
+                    let left = generate_expression(&exprs[0], context)?;
+                    let value = generate_invoke_simple("fmod", &[], exprs, context)?;
+                    return Ok(ast::Expression::BinaryOperation(
+                        ast::BinOp::Assignment,
+                        Box::new(Located::none(left)),
+                        Box::new(Located::none(value)),
+                    ));
+                }
+                _ => Form::Binary(ast::BinOp::RemainderAssignment),
+            }
+        }
         LeftShiftAssignment => Form::Binary(ast::BinOp::LeftShiftAssignment),
         RightShiftAssignment => Form::Binary(ast::BinOp::RightShiftAssignment),
         BitwiseAndAssignment => Form::Binary(ast::BinOp::BitwiseAndAssignment),
@@ -4248,6 +4274,54 @@ fn generate_intrinsic_op(
         }
     };
     Ok(expr)
+}
+
+/// Check if an expression gives the same result without other effects when it is evaluated a second time
+fn can_evaluate_twice(expr: &ir::Expression) -> bool {
+    match expr {
+        ir::Expression::Literal(_)
+        | ir::Expression::Variable(_)
+        | ir::Expression::MemberVariable(_, _)
+        | ir::Expression::Global(_)
+        | ir::Expression::ConstantVariable(_)
+        | ir::Expression::EnumValue(_) => true,
+        ir::Expression::Swizzle(inner, _)
+        | ir::Expression::MatrixSwizzle(inner, _)
+        | ir::Expression::StructMember(inner, _, _)
+        | ir::Expression::Cast(_, inner) => can_evaluate_twice(inner),
+        ir::Expression::ArraySubscript(object, index) => {
+            can_evaluate_twice(object) && can_evaluate_twice(index)
+        }
+        ir::Expression::IntrinsicOp(op, args) => {
+            use ir::IntrinsicOp::*;
+            let reads_only = matches!(
+                op,
+                Plus | Minus
+                    | LogicalNot
+                    | BitwiseNot
+                    | Add
+                    | Subtract
+                    | Multiply
+                    | Divide
+                    | Modulus
+                    | LeftShift
+                    | RightShift
+                    | BitwiseAnd
+                    | BitwiseOr
+                    | BitwiseXor
+                    | BooleanAnd
+                    | BooleanOr
+                    | LessThan
+                    | LessEqual
+                    | GreaterThan
+                    | GreaterEqual
+                    | Equality
+                    | Inequality
+            );
+            reads_only && args.iter().all(can_evaluate_twice)
+        }
+        _ => false,
+    }
 }
 
 /// Generate an initializer
